@@ -102,4 +102,44 @@ def csLevelOk (L : CsLevel) : CsOpt → Bool
   | .preset i => L.flag true && L.index i
   | .custom p m t => L.flag true && L.index 0 && levelOk L.prim false p && levelOk L.mat false m && levelOk L.tf false t
 
+/-! ### the whole of the source parameters (`iter_source_parameter_options`) -/
+
+/-- one parameter group of the sequence header with everything its option iterator looks at -/
+inductive Group
+  | simple (base target : List Int) (presets : Option (List (Nat × List Int))) (L : Level)
+  | color (base target : List Int) (presets : List (Nat × List Int)) (L : CsLevel)
+
+/-- an encoding of one group -/
+inductive GOpt
+  | simple (o : Opt)
+  | color (o : CsOpt)
+
+def Group.target : Group → List Int
+  | .simple _ t _ _ => t
+  | .color _ t _ _ => t
+
+/-- the group's option iterator -/
+def Group.options : Group → List GOpt
+  | .simple b t ps L => (iterOptions b t ps L).map .simple
+  | .color b t ps L => (iterColorSpec b t ps L).map .color
+
+/-- what the decoder makes of an encoding of the group (`none`: not an encoding of this kind of group) -/
+def Group.decode : Group → GOpt → Option (List Int)
+  | .simple b _ ps _, .simple o => SeqHeader.decode b ps o
+  | .color b _ ps _, .color o => decodeColorSpec b ps o
+  | _, _ => none
+
+/-- the decoder's level checks for the group -/
+def Group.levelOk : Group → GOpt → Bool
+  | .simple _ _ ps L, .simple o => SeqHeader.levelOk L ps.isSome o
+  | .color _ _ _ L, .color o => csLevelOk L o
+  | _, _ => false
+
+/-- `iter_source_parameter_options`: nothing when the base format has the other field order (11.3: it cannot
+    be overridden); otherwise the rows of `zip_longest_repeating_final_value` over the groups' iterators, up to
+    the first row in which some group has no encoding ("give up immediately") -/
+def iterSourceParameters (tffBase tffTarget : Bool) (groups : List Group) : List (List GOpt) :=
+  if tffBase != tffTarget then [] else
+  ((zipLongest (groups.map Group.options)).takeWhile (fun r => r.all Option.isSome)).map (fun r => r.filterMap id)
+
 end VC2.Model.SeqHeader
